@@ -161,13 +161,15 @@ static void pick_and_give(std::unique_lock<std::mutex>& lk, int me) {
         // nobody else can run: wait for a detached thread to come back (or give up)
         bool ok = false;
         for (int spin = 0; spin < 5000 && !ok; ++spin) {
+            // (the caller itself counts once its own stall directive has expired)
             ok = cv.wait_for(lk, std::chrono::milliseconds(1), [&] {
-                for (int i = 0; i < static_cast<int>(th.size()); ++i) if (i != me && available(i)) return true;
+                for (int i = 0; i < static_cast<int>(th.size()); ++i) if (available(i)) return true;
                 return !active.load();
             });
         }
         if (!ok) { stuck = true; active.store(false); cv.notify_all(); return; }
         for (int i = 0; i < static_cast<int>(th.size()); ++i) if (i != me && available(i)) { next = i; break; }
+        if (next < 0 && available(me)) next = me;
     }
     if (next >= 0) {
         if (replay_mode) ++replay_pos;
@@ -501,6 +503,20 @@ static void worker(int tid, std::vector<Rec>* recs, std::vector<NvRec>* nvs, Tok
         } else if (op == "vinc") {
             g_rawver.atomic_inc_vinsert();
             o << "set";
+        } else if (op == "probe") {
+            // an open session looks at its own slot: it must be marked running with a begin epoch
+            if (tok == nullptr) o << "no-session";
+            else {
+                // not a step of the protocol under test: read without announcing (nobody else is
+                // scheduled while this thread runs), so the trace the acceptors see is unchanged
+                auto* ti = reinterpret_cast<thread_info*>(tok);
+                auto saved = yakushima::verif::hook_slot();
+                yakushima::verif::hook_slot() = nullptr;
+                bool run = ti->get_running();
+                auto be = ti->get_begin_epoch();
+                yakushima::verif::hook_slot() = saved;
+                o << "probe running " << (run ? 1 : 0) << " begin " << be;
+            }
         } else if (op == "hold") {
             // re-read everything handed out so far in this session: contents must be unchanged
             std::size_t bad = 0;
@@ -573,6 +589,9 @@ int main(int argc, char** argv) {
                 if (p[0] == "put") {
                     vh::unhex(p[2], v);
                     put<char>(t, g_storage, k, v.data(), v.size());
+                } else if (p[0] == "puti") {
+                    std::uintptr_t x = std::strtoull(p[2].c_str(), nullptr, 16);
+                    put<std::uintptr_t>(t, g_storage, k, &x, sizeof(x));
                 } else if (p[0] == "remove") {
                     remove(t, g_storage, k);
                 }
